@@ -365,6 +365,10 @@ pub fn run_case(env: &Env, case: &Case, oracle: &mut Oracle, mut fill: Option<Pl
                 if inv.cwd != "." && !matches!(tree.get(&inv.cwd), Some(Node::Dir)) {
                     inv.cwd = ".".into();
                 }
+                // the debug dumps only over small, shallow worlds (edits may have changed that)
+                if inv.debug != 0 && !super::workload::debug_output_is_small(&tree, inv.stdin.as_ref().map(|b| b.0.as_slice())) {
+                    inv.debug = 0;
+                }
                 if let Some(ctx) = fill.as_mut() {
                     plan::add_plan(ctx.rng, ctx.profile, &tree, &mut inv, oracle, events_hint);
                 }
